@@ -334,4 +334,54 @@ def Returns (ext : Ext) (body : Stmt) (env : Env) (out : M Val) : Prop :=
   | .ok v => Runs ext body env (.ret v) ∨ (v = .none ∧ ∃ e, Runs ext body env (.norm e))
   | .error err => ∃ e, Runs ext body env (.exc err e)
 
+/-! ### straight-line code as a chain of binds -/
+
+theorem Returns.seq_norm {ext : Ext} {a rest : Stmt} {env env' : Env} {out : M Val} (h1 : Runs ext a env (.norm env'))
+    (h2 : Returns ext rest env' out) : Returns ext (.seq a rest) env out := by
+  cases out with
+  | error err =>
+    obtain ⟨e, h2⟩ := h2
+    exact ⟨e, Runs.seq h1 h2⟩
+  | ok v =>
+    rcases h2 with h2 | ⟨hv, e, h2⟩
+    · exact Or.inl (Runs.seq h1 h2)
+    · exact Or.inr ⟨hv, e, Runs.seq h1 h2⟩
+
+/-- `x = e` followed by the rest of the body: the value of `e` is bound, an exception ends the call -/
+theorem Returns.assign_bind {ext : Ext} {env : Env} {x : String} {e : Expr} {rest : Stmt} {f : Val → M Val} (r : M Val)
+    (he : evalExpr ext env e = r) (h : ∀ v, r = .ok v → Returns ext rest (setVar env x v) (f v)) :
+    Returns ext (.seq (.assign x e) rest) env (r >>= f) := by
+  cases r with
+  | error err => exact ⟨env, Runs.seq_stop (Runs.assign_err he) (by intro e; simp)⟩
+  | ok v => exact Returns.seq_norm (Runs.assign he) (h v rfl)
+
+/-- what `a, b = v` needs of `v` -/
+def unpack2 (v : Val) : M (Val × Val) :=
+  match seqOf v with
+  | some [a, b] => .ok (a, b)
+  | some _ => .error .valueError
+  | none => .error (.internal "unsupported: unpacking a non-sequence")
+
+theorem Returns.unpack2_bind {ext : Ext} {env : Env} {x y : String} {e : Expr} {rest : Stmt} {f : Val × Val → M Val} (r : M Val)
+    (he : evalExpr ext env e = r) (h : ∀ a b, Returns ext rest (setVar (setVar env x a) y b) (f (a, b))) :
+    Returns ext (.seq (.unpack [x, y] e) rest) env (r >>= fun v => unpack2 v >>= f) := by
+  cases r with
+  | error err => exact ⟨env, Runs.seq_stop (Runs.unpack_err he) (by intro e; simp)⟩
+  | ok v =>
+    simp only [bind, Except.bind, unpack2]
+    cases hs : seqOf v with
+    | none =>
+      refine ⟨env, Runs.seq_stop (runs_intro 0 fun k _ => by simp [exec, he, hs]) (by intro e; simp)⟩
+    | some l =>
+      match l, hs with
+      | [a, b], hs => exact Returns.seq_norm (Runs.unpack he hs (by simp [bindAll])) (h a b)
+      | [], hs => exact ⟨env, Runs.seq_stop (runs_intro 0 fun k _ => by simp [exec, he, hs, bindAll]) (by intro e; simp)⟩
+      | [_], hs => exact ⟨env, Runs.seq_stop (runs_intro 0 fun k _ => by simp [exec, he, hs, bindAll]) (by intro e; simp)⟩
+      | _ :: _ :: _ :: _, hs => exact ⟨env, Runs.seq_stop (runs_intro 0 fun k _ => by simp [exec, he, hs, bindAll]) (by intro e; simp)⟩
+
+theorem Returns.ret_of {ext : Ext} {env : Env} {e : Expr} (r : M Val) (he : evalExpr ext env e = r) : Returns ext (.ret e) env r := by
+  cases r with
+  | error err => exact ⟨env, Runs.ret_err he⟩
+  | ok v => exact Or.inl (Runs.ret he)
+
 end Chartparse.PyImp
